@@ -590,10 +590,30 @@ def c13(c):
     # (c) proofs: commitments only re-normalised, polynomials / indices / statements / proofs unchanged
     pf = mp_runs(c, "mp_arrival" if quick else "mp_honest", [(vlib.NCPU, "")])
     c.validate("Trace_Proof", pf, heap="6g", timeout=7200)
+    # (d) the exported helpers outside the histories above whose argument-preservation the other families record: fr.BatchInvert (every length 0..5,
+    #     every zero pattern), the point decoders' buffers, DivideOnDomain's polynomial - the same events, judged here for C13
+    fprogs = c.generate("Gen_Field", name="prog-field", env={"VERIF_PART": "field"})
+    fsub = os.path.join(c.dir, "prog-field-batch.jsonl")
+    with open(fsub, "w") as fh:
+        for ln in open(fprogs):
+            if json.loads(ln).get("op") == "batchinv":
+                fh.write(ln)
+    c.validate("Trace_Field", c.drive("field", fsub, name="tr-field-batch", shards=4), heap="3g", timeout=3600)
+    c.validate("Trace_Decode", c.drive("decode", c.generate("Gen_Decode", name="prog-decode"), name="tr-decode", shards=vlib.NCPU), timeout=3600)
+    pprogs = c.generate("Gen_Poly", name="prog-poly")
+    psub = os.path.join(c.dir, "prog-poly-divide.jsonl")
+    with open(psub, "w") as fh:
+        for ln in open(pprogs):
+            if json.loads(ln).get("kind") == "divide":
+                fh.write(ln)
+    c.validate("Trace_Poly", c.drive("poly", psub, name="tr-poly-divide", shards=8), heap="4g", timeout=3600)
+    missing = [k for k in ("batchinv", "divide") if c.judged.get(k, 0) == 0]
+    c.guard(not missing, "helper kinds without any judged call: %s" % missing)
     return c.finish(rule="(a) mixed API histories from TLC simulation of Gen_Purity on one shared configuration: SHA-256 fingerprints of SRS/Q/weight tables and of package-level values "
                          "(generator, identity, curve parameters, all Fiat-Shamir labels) after EVERY call, of the precomputed MSM tables at start/end/TLC-chosen positions, caller inputs compared "
                          "with deep copies, and a fixed probe call replayed at TLC-chosen positions; (b) the frame condition of every call of group-family histories (every pool slot outside the "
                          "call's frame bit for bit unchanged, scalar/slice/buffer arguments unchanged); (c) proofs: commitments only re-normalised, everything else unchanged; "
+                         "(d) fr.BatchInvert for every length 0..5 x zero pattern, the point decoders' input buffers, DivideOnDomain's polynomial: arguments unchanged; "
                          "distinct = distinct (history, position, call kind)", min_events=200,
                     assumptions=["fingerprints are computed by the driver (a sensor) through the read-only hooks; the specification compares them",
                                  "independence of history is established through the probe call and through every reply of every family being judged as a function of its arguments only"])
